@@ -123,6 +123,8 @@ def run(tier):
                                   {"kind": "history", "driver": "c16 replay", "signature": name, "ops": ops,
                                    "mid": False, "detail": f["detail"], "occurrences": len(fs), "case": f.get("case"),
                                    "shrunk_from": len(f.get("ops", [])) if shrunk else None, "seed": res.seed}, True)
+            if not o.get("config_probe_tells_the_engines_apart", False):
+                st["broken"].append({"obligation": "configuration-probe", "detail": "the probe key sequences give the same result under the three conversion engines"})
             if "ambiguous" in o.get("refs", "") and not o.get("refs", "").startswith("REFS"):
                 st["broken"].append({"obligation": "reference-fingerprints", "detail": o.get("refs")})
         except (OSError, ValueError, KeyError) as e:
